@@ -117,9 +117,81 @@ func ruleErrorsNotDropped(r *Report) {
 			fmt.Fprintf(os.Stderr, "DROPPED %s @ %s\n", h.key, r.E.Fset.Position(h.c.Pos()))
 		}
 	}
+	// Rename tolerance. The table is keyed by names; a function (or a callee) that was merely renamed
+	// must not turn its listed idioms into reports. A function F that is not in the table is matched
+	// with a table function G of the same package that no longer exists in the program when every
+	// idiom observed in F is listed for G (callees that no longer exist either are paired with F's
+	// unlisted module callees one to one).
+	present := map[string]bool{}
+	for _, f := range moduleFuncs(r.E) {
+		present[shortFunc(f)] = true
+	}
+	tableByFn := map[string]map[string]int{}
+	for k, n := range droppedErrorMax {
+		parts := strings.SplitN(k, " <- ", 2)
+		if tableByFn[parts[0]] == nil {
+			tableByFn[parts[0]] = map[string]int{}
+		}
+		tableByFn[parts[0]][parts[1]] = n
+	}
+	obsByFn := map[string]map[string]int{}
+	for _, h := range hits {
+		parts := strings.SplitN(h.key, " <- ", 2)
+		if obsByFn[parts[0]] == nil {
+			obsByFn[parts[0]] = map[string]int{}
+		}
+		obsByFn[parts[0]][parts[1]]++
+	}
+	pkgOfName := func(n string) string {
+		n = strings.TrimPrefix(n, "(*")
+		n = strings.TrimPrefix(n, "(")
+		if i := strings.Index(n, "."); i > 0 {
+			return n[:i]
+		}
+		return n
+	}
+	covers := func(obs, tab map[string]int) bool {
+		unmatched, spare := 0, 0
+		for c, n := range obs {
+			if tab[c] >= n {
+				continue
+			}
+			if !strings.Contains(c, "os.") && !strings.HasPrefix(c, "io.") { // a module callee may have been renamed too
+				unmatched += n - tab[c]
+			} else {
+				return false
+			}
+		}
+		for c, n := range tab {
+			if obs[c] == 0 && !present[c] && !strings.Contains(c, "os.") && !strings.HasPrefix(c, "io.") {
+				spare += n
+			}
+		}
+		return unmatched <= spare
+	}
+	renamedFrom := map[string]string{}
+	for f, obs := range obsByFn {
+		if tableByFn[f] != nil {
+			if covers(obs, tableByFn[f]) {
+				renamedFrom[f] = f // same function, a callee was renamed
+			}
+			continue
+		}
+		for g, tab := range tableByFn {
+			if !present[g] && pkgOfName(g) == pkgOfName(f) && covers(obs, tab) {
+				renamedFrom[f] = g
+			}
+		}
+	}
 	for _, h := range hits {
 		r.fn(h.fn)
 		perKey[h.key]++
+		if g, ok := renamedFrom[strings.SplitN(h.key, " <- ", 2)[0]]; ok {
+			if _, listed := droppedErrorOK[h.key]; !listed || perKey[h.key] > droppedErrorMax[h.key] {
+				r.Ok(rule, h.key, h.c.Pos(), "listed idiom of "+g+" (function or callee renamed)")
+				continue
+			}
+		}
 		if _, ok := droppedErrorOK[h.key]; ok && perKey[h.key] <= droppedErrorMax[h.key] {
 			r.Ok(rule, h.key, h.c.Pos(), "listed idiom: "+droppedErrorOK[h.key])
 			continue
